@@ -141,6 +141,7 @@ func main() {
 		{"Signing.lean", genSigning},
 		{"Globals.lean", genGlobals},
 		{"Methods.lean", genMethods},
+		{"Observers.lean", genObservers},
 	}
 	for _, g := range gens {
 		b, err := g.f(root, *repo)
